@@ -215,10 +215,11 @@ def execute(scn):
 
 def run(scn, fork_call):
     from dsim.runner import HarnessError
+    deep = any(isinstance(i, dict) and list(i) == ["$deep"] for i in scn["world"]["instances"])
     try:
-        return fork_call(execute, scn)
+        # (a deep-instance history normally takes well under a second; an exponential one is given up early)
+        return fork_call(execute, scn, timeout=15.0) if deep else fork_call(execute, scn)
     except HarnessError as e:
-        deep = any(isinstance(i, dict) and list(i) == ["$deep"] for i in scn["world"]["instances"])
         if deep and "timed out" in str(e):
             # a branching recursive schema over a deep instance is exponential: the run is inconclusive, not broken
             return {"violations": [], "nontrivial": False, "stats": {"deep_instance_run_too_long": 1},
